@@ -36,6 +36,7 @@ type faultProxy struct {
 	conns    map[net.Conn]bool
 	frozen   int32                  // established connections stop carrying data in either direction (a black hole)
 	late     map[net.Conn]chan bool // upstream halves of frozen connections, closed when told to
+	httpPort int                    // when set: the IDENTIFY answer names this HTTP port instead of the nsqlookupd's own
 }
 
 func newFaultProxy(upstream string) (*faultProxy, error) {
@@ -189,6 +190,30 @@ func (p *faultProxy) handle(c net.Conn, mode, up string) {
 		}
 	}()
 	go func() {
+		p.mu.Lock()
+		hp := p.httpPort
+		p.mu.Unlock()
+		if hp != 0 && mode != "badident" {
+			// the first reply (to IDENTIFY) is passed on with http_port pointing at the HTTP fault listener
+			var hdr [4]byte
+			if _, err := io.ReadFull(u, hdr[:]); err == nil {
+				n := binary.BigEndian.Uint32(hdr[:])
+				if n < 1<<20 {
+					body := make([]byte, n)
+					if _, err := io.ReadFull(u, body); err == nil {
+						var m map[string]interface{}
+						if json.Unmarshal(body, &m) == nil && m["http_port"] != nil {
+							m["http_port"] = hp
+							m["broadcast_address"] = "127.0.0.1"
+							body, _ = json.Marshal(m)
+						}
+						binary.BigEndian.PutUint32(hdr[:], uint32(len(body)))
+						c.Write(hdr[:])
+						c.Write(body)
+					}
+				}
+			}
+		}
 		if mode == "badident" {
 			// the first reply (to IDENTIFY) keeps its framing but is not JSON; everything else passes through
 			var hdr [4]byte
@@ -229,6 +254,113 @@ func (p *faultProxy) handle(c net.Conn, mode, up string) {
 		delete(p.late, u)
 	}
 	p.mu.Unlock()
+}
+
+// ---- HTTP fault listener ---------------------------------------------------
+// Stands where nsqd believes an nsqlookupd's HTTP port to be (see faultProxy.httpPort).
+type httpFault struct {
+	ln       net.Listener
+	mu       sync.Mutex
+	mode     string // pass | silent | headstall | bodystall | drip | garbage | reset | status500
+	upstream string
+	conns    map[net.Conn]bool
+	hits     int32
+}
+
+func newHTTPFault(upstream string) (*httpFault, error) {
+	ln, err := net.Listen("tcp", "127.0.0.1:0")
+	if err != nil {
+		return nil, err
+	}
+	h := &httpFault{ln: ln, mode: "pass", upstream: upstream, conns: map[net.Conn]bool{}}
+	go func() {
+		for {
+			c, err := ln.Accept()
+			if err != nil {
+				return
+			}
+			h.mu.Lock()
+			h.conns[c] = true
+			mode := h.mode
+			h.mu.Unlock()
+			go h.handle(c, mode)
+		}
+	}()
+	return h, nil
+}
+
+func (h *httpFault) port() int { return h.ln.Addr().(*net.TCPAddr).Port }
+func (h *httpFault) set(mode string) {
+	h.mu.Lock()
+	h.mode = mode
+	h.mu.Unlock()
+}
+func (h *httpFault) close() {
+	h.ln.Close()
+	h.mu.Lock()
+	for c := range h.conns {
+		c.Close()
+	}
+	h.mu.Unlock()
+}
+
+func (h *httpFault) handle(c net.Conn, mode string) {
+	defer func() {
+		c.Close()
+		h.mu.Lock()
+		delete(h.conns, c)
+		h.mu.Unlock()
+	}()
+	if mode == "pass" {
+		u, err := net.DialTimeout("tcp", h.upstream, time.Second)
+		if err != nil {
+			return
+		}
+		defer u.Close()
+		go io.Copy(u, c)
+		io.Copy(c, u)
+		return
+	}
+	// read the request head
+	buf := make([]byte, 0, 4096)
+	tmp := make([]byte, 1024)
+	for !strings.Contains(string(buf), "\r\n\r\n") {
+		n, err := c.Read(tmp)
+		if err != nil {
+			return
+		}
+		buf = append(buf, tmp[:n]...)
+	}
+	atomic.AddInt32(&h.hits, 1)
+	hold := func() { io.Copy(io.Discard, c) } // until the client hangs up
+	switch mode {
+	case "silent":
+		hold()
+	case "headstall":
+		c.Write([]byte("HTTP/1.1 200 OK\r\nContent-Type: application/json\r\n"))
+		hold()
+	case "bodystall":
+		// status line and headers in time, then the body never completes
+		c.Write([]byte("HTTP/1.1 200 OK\r\nContent-Type: application/json; charset=utf-8\r\nContent-Length: 4096\r\n\r\n{\"channels\":["))
+		hold()
+	case "drip":
+		// a reply that keeps coming, a byte at a time, and never ends
+		c.Write([]byte("HTTP/1.1 200 OK\r\nContent-Type: application/json; charset=utf-8\r\nTransfer-Encoding: chunked\r\n\r\n"))
+		for {
+			if _, err := c.Write([]byte("1\r\n \r\n")); err != nil {
+				return
+			}
+			time.Sleep(100 * time.Millisecond)
+		}
+	case "garbage":
+		c.Write([]byte("HTTP/1.1 200 OK\r\nContent-Type: application/json\r\nContent-Length: 9\r\nConnection: close\r\n\r\n{\"chan<ht"))
+	case "status500":
+		c.Write([]byte("HTTP/1.1 500 Internal Server Error\r\nContent-Length: 2\r\nConnection: close\r\n\r\n{}"))
+	case "reset":
+		if tc, ok := c.(*net.TCPConn); ok {
+			tc.SetLinger(0)
+		}
+	}
 }
 
 // ---- lookupd instances ---------------------------------------------------
@@ -379,6 +511,7 @@ func runLookupSync(lc *lsCase, dir string) {
 	rng := rand.New(rand.NewSource(lc.Seed))
 	var lds []*lookupdInst
 	var proxies []*faultProxy
+	var hfault *httpFault
 	for i := 0; i < lc.NLookupd; i++ {
 		li, err := startLookupdWith(func(o *nsqlookupd.Options) {
 			if lc.Kind == "churnping" {
@@ -395,9 +528,20 @@ func runLookupSync(lc *lsCase, dir string) {
 			lc.Incon = err.Error()
 			return
 		}
+		if lc.Kind == "httpfault" && i == 0 {
+			hfault, err = newHTTPFault(li.http)
+			if err != nil {
+				lc.Incon = err.Error()
+				return
+			}
+			p.httpPort = hfault.port()
+		}
 		proxies = append(proxies, p)
 	}
 	defer func() {
+		if hfault != nil {
+			hfault.close()
+		}
 		for _, li := range lds {
 			li.l.Exit()
 		}
@@ -727,6 +871,101 @@ func runLookupSync(lc *lsCase, dir string) {
 		if err == nil {
 			lds[0] = nl
 		}
+		return
+	case "httpfault":
+		// two nsqlookupds, both fine on TCP.  The HTTP side of #1 misbehaves (answers nothing, stalls in the headers, stalls in
+		// the body, drips for ever, answers garbage, resets, answers 500); #2 knows channel `pre` of the topic about to be made.
+		// Creating the topic asks both over HTTP: the publish is acknowledged and delivered, `pre` gets the first message.
+		if len(lds) < 2 || hfault == nil {
+			lc.Incon = "needs two lookupds"
+			return
+		}
+		modes := []string{"bodystall", "silent", "headstall", "drip", "garbage", "reset", "status500"}
+		mode := modes[int(lc.Seed)%len(modes)]
+		lc.Faults = append(lc.Faults, "http:"+mode)
+		topic := "freshh"
+		st, err := httpPost("http://" + lds[1].http + "/channel/create?topic=" + topic + "&channel=pre")
+		if err != nil || st != 200 {
+			lc.Incon = "lookupd channel create failed"
+			return
+		}
+		hfault.set(mode)
+		oc, err := dial(nd.TCP, "otherh")
+		if err != nil {
+			lc.Incon = err.Error()
+			return
+		}
+		defer oc.close()
+		oc.identify(nil)
+		type res struct {
+			st  int
+			err error
+		}
+		pubDone := make(chan res, 1)
+		t0 := time.Now()
+		go func() {
+			hc := &http.Client{Timeout: 40 * time.Second}
+			resp, err := hc.Post("http://"+nd.HTTP+"/pub?topic="+topic, "application/octet-stream", strings.NewReader("first"))
+			if err != nil {
+				pubDone <- res{0, err}
+				return
+			}
+			io.Copy(io.Discard, resp.Body)
+			resp.Body.Close()
+			pubDone <- res{resp.StatusCode, nil}
+		}()
+		// nsqd gives every lookupd query http-client-request-timeout (600 ms here); 25 times that is "stopped", not "slow"
+		limit := 15 * time.Second
+		select {
+		case r := <-pubDone:
+			if r.err != nil || r.st != 200 {
+				lc.failf("[stall] first publish to a fresh topic failed while one nsqlookupd's HTTP side was faulty (%s): %v %d", mode, r.err, r.st)
+				return
+			}
+		case <-time.After(limit):
+			lc.failf("[stall] one nsqlookupd's HTTP side was faulty (%s: headers/body never complete); the first publish to a fresh topic was still not acknowledged after %s (nsqd's own limit for such a query is 600 ms)", mode, limit)
+			return
+		}
+		if atomic.LoadInt32(&hfault.hits) == 0 {
+			lc.Incon = "nsqd never queried the faulty HTTP side"
+			return
+		}
+		lc.SyncMs = time.Since(t0).Milliseconds()
+		if err := oc.sub(topic, "other"); err != nil {
+			lc.Incon = err.Error()
+			return
+		}
+		oc.cmd("RDY", "", "1")
+		cn, err := dial(nd.TCP, "preh")
+		if err != nil {
+			lc.Incon = err.Error()
+			return
+		}
+		defer cn.close()
+		cn.identify(nil)
+		if err := cn.sub(topic, "pre"); err != nil {
+			lc.Incon = err.Error()
+			return
+		}
+		cn.cmd("RDY", "", "2")
+		fr, ok := cn.next(limit)
+		if !ok || fr.Type != 2 {
+			lc.failf("[stall] one nsqlookupd's HTTP side was faulty (%s); the message published to the fresh topic was acknowledged but not delivered within %s", mode, limit)
+			return
+		}
+		if string(fr.Body) != "first" {
+			lc.failf("[precreate] one nsqlookupd's HTTP side was faulty (%s); the other knew channel `pre` for the topic, which did not receive the topic's first message", mode)
+		}
+		cn.cmd("FIN", fr.ID, "")
+		// and the nsqd goes on publishing and delivering
+		if st, _, err := nd.post("/pub?topic="+topic, []byte("second")); err != nil || st != 200 {
+			lc.failf("[stall] second publish failed: %v %d", err, st)
+			return
+		}
+		if fr, ok := cn.next(limit); !ok || fr.Type != 2 || string(fr.Body) != "second" {
+			lc.failf("[stall] one nsqlookupd's HTTP side was faulty (%s); a later message was not delivered within %s", mode, limit)
+		}
+		hfault.set("pass")
 		return
 	case "precreate3":
 		// the connection to the (healthy) nsqlookupd has just been dropped and nsqd has noticed, but has not reconnected yet:
